@@ -102,6 +102,11 @@ impl<'r> Gen<'r> {
         // implicit conversion: an operand of another type where `t` is expected
         if self.rng.chance(1, 8) {
             let other = self.pick_ty(true);
+            if other == T::Bool && t != T::Bool {
+                // a bool next to an int literal makes the type checker compute in IntLiteral (Cast(IntLiteral, bool)),
+                // the class of the known finding `2147483647 + t`: converted explicitly here, covered by the corpus entry
+                return format!("({})({})", tn(t), self.expr(other, d, scope));
+            }
             if other != t {
                 return format!("({})", self.expr(other, d, scope));
             }
